@@ -15,7 +15,7 @@ pub fn check(id: &str, tier: &str, seed: u64) -> Option<i32> {
     match id {
         "C12" => {
             let max_entries = if thorough { 5000 } else { 600 };
-            let cases = if thorough { 60_000 } else { 4000 };
+            let cases = if thorough { 200_000 } else { 16_000 };
             let out = explore_generic(
                 || crate::tablecheck::strategy(max_entries),
                 cases,
@@ -48,7 +48,7 @@ pub fn check(id: &str, tier: &str, seed: u64) -> Option<i32> {
             ))
         }
         "C19" => {
-            let cases = if thorough { 40_000 } else { 2400 };
+            let cases = if thorough { 300_000 } else { 30_000 };
             let out = explore_generic(
                 || crate::fifo::strategy(if thorough { 60 } else { 30 }),
                 cases,
@@ -108,7 +108,7 @@ pub fn check(id: &str, tier: &str, seed: u64) -> Option<i32> {
             let mut g = crash_profile();
             g.max_ops = if thorough { 25 } else { 14 };
             g.w.reopen = 1;
-            let cases = if thorough { 9600 } else { 960 };
+            let cases = if thorough { 16_000 } else { 1600 };
             let out = explore_generic(
                 || crate::fault::strategy(&g),
                 cases,
@@ -177,7 +177,7 @@ pub fn check(id: &str, tier: &str, seed: u64) -> Option<i32> {
             ))
         }
         "C06" => {
-            let cases = if thorough { 40_000 } else { 3000 };
+            let cases = if thorough { 80_000 } else { 8000 };
             let out = explore_generic(
                 || crate::sched::strategy(if thorough { 60 } else { 40 }, false),
                 cases,
